@@ -340,6 +340,12 @@ func genC08(tier string, rng *Rng) {
 		}
 		add(name, connWithCuts(first, rest, cuts, 50, rng.Pick([]int{0, 5, 50})))
 	}
+	// several connections, the panel changing its behaviour from one to the next (matrix.go): what is
+	// delivered on a connection depends on that connection's negotiation only
+	for _, sc := range matrixScenarios(tier, false) {
+		scs = append(scs, sc)
+		hist["matrix"]++
+	}
 	meta(map[string]interface{}{"c08_scenarios_by_kind": hist, "scenarios": len(scs)})
 	runBatch(scs, 64)
 	meta(map[string]interface{}{"reruns": rerunCount, "reruns_rescued": rerunRescued})
